@@ -199,6 +199,14 @@ theorem join_keys_inner (on : List String) (hon : on ≠ []) (hnd : on.Nodup)
     hasKey r on k ↔ hasKey d on k ∧ ∀ t ∈ ds, hasKey t on k :=
   hasKey_fold on hon hnd ds d r hok h k
 
+/-- **scalars broadcast / defaults filled in**: `d(**{k: v})` sets column `k` to `v` on every row and
+leaves every other column alone (this is how scalar inputs enter the joined table and how the rows
+of an outer join receive their default) -/
+theorem const_column (t : Table) (k : String) (v : Cell) (ht : t ≠ []) :
+    (t.setConst k v).col? k = some (List.replicate t.nrows v) ∧
+    ∀ c, c ≠ k → (t.setConst k v).col? c = t.col? c :=
+  setConst_spec t k v ht
+
 /-- the rows of a product of two tables sharing exactly `on`: the key-equal pairs of rows, each
 once, every product row carrying a key `cmp`-equal to the keys of both rows it combines -/
 theorem mul_rows_spec (a b d : Table) (on : List String) (hon : on ≠ []) (hnd : on.Nodup)
